@@ -71,11 +71,25 @@ async def put_peripherals(request: core_api.APIRequest, params: GenericJSONList)
         await peripherals.remove(p.get_id(), persisted_data=True)
 
     peripheral_list = []
-    for par in params:
-        if par.pop('static', None):
-            continue
-        p = await peripherals.add(par)
-        peripheral_list.append(p)
-
-    for p in peripheral_list:
-        await p.init_ports()
+    try:
+        for index, par in enumerate(params):
+            if par.pop('static', None):
+                continue
+            try:
+                p = await peripherals.add(par)
+            except peripherals.NoSuchDriver:
+                raise core_api.APIError(404, 'no-such-driver', index=index)
+            except peripherals.DuplicatePeripheral:
+                raise core_api.APIError(400, 'duplicate-peripheral', index=index)
+            except TypeError as e:
+                if 'argument' in str(e):
+                    raise core_api.APIError(400, 'invalid-field', field='params', index=index)
+                else:
+                    raise core_api.APIError(400, 'invalid-request', details=str(e), index=index)
+            except Exception as e:
+                raise core_api.APIError(400, 'invalid-request', details=str(e), index=index)
+            peripheral_list.append(p)
+    finally:
+        # Also when an entry has been refused: the peripherals added so far must get their ports
+        for p in peripheral_list:
+            await p.init_ports()
